@@ -58,7 +58,9 @@ class ForwardModel(E2Contract):
             for on_para in (True, False):
                 for var in ("all", "subset", "repetition", "permutation"):
                     out.append(("1q", kind, on_para, var, 2))
-        out += [("1q", "povmt", True, "all", 3), ("1q", "qmpt", True, "all", 3), ("1qt", "qst", True, "all", 2), ("1qt", "povmt", False, "all", 3)]
+        out += [("1q", "povmt", True, "all", 3), ("1q", "qmpt", True, "all", 3), ("1qt", "qst", True, "all", 2), ("1qt", "povmt", False, "all", 3),
+                # dimension 3 for the process-type tomographies (dim*2 != dim**2)
+                ("1qt", "qmpt", True, "subset", 2), ("1qt", "qpt", True, "subset", 2)]
         if tier == "thorough":
             out += [("2q", "qst", True, "all", 2), ("2q", "povmt", True, "all", 3), ("1q", "qmpt", False, "all", 4), ("1q", "povmt", True, "all", 4),
                     ("1qt", "qst", False, "permutation", 2)]
